@@ -767,7 +767,9 @@ func (path *Path) PrependAsn(asn uint32, repeat uint8, confed bool) {
 		p := bgp.NewAs4PathParam(segType, asns)
 		asPath.Value = append([]bgp.AsPathParamInterface{p}, asPath.Value...)
 	}
-	path.setPathAttr(asPath)
+	// build the attribute from the final segments: its length (what the
+	// UPDATE packer budgets with) has to include the prepended numbers
+	path.setPathAttr(bgp.NewPathAttributeAsPath(asPath.Value))
 }
 
 func isPrivateAS(as uint32) bool {
